@@ -40,7 +40,7 @@ def plan(tier, seed):
 def floors(tier):
     return {"distinct_nontrivial": 300, "variants_compared": 5000, "cls:variant_syntactically_different": 3000,
             "cls:decl_order_permuted": 1000, "cls:sel_order_permuted": 500, "cls:split_top_and": 100,
-            "cls:nvars=3": 300, "cls:nvars=4": 100, "cls:for_all_query": 200, "cls:flatten_query": 100}
+            "cls:nvars=3": 300, "cls:nvars=4": 100, "cls:for_all_query": 200, "cls:flatten_query": 100, "cls:flatten_of_plain_numbers": 60}
 
 
 def cases(spec, ctx):
@@ -50,9 +50,13 @@ def cases(spec, ctx):
         if rng.random() < 0.12:
             from . import c16
             base = c16.gen_case(rng)
-            while base.get("prim") or base.get("plain_scalar"):
+            while base.get("plain_scalar") or (base.get("prim") and rng.random() < 0.5):
                 base = c16.gen_case(rng)
-            base["cond"] = rng.choice(["join3", "join3", "both", "elem_stacked"])
+            if base.get("prim"):
+                # plain numbers as elements (negative ones too): or_ / and_ / stacked conditions with their operands swapped
+                base["cond"] = rng.choice(["elem_or", "elem_or", "elem_and", "elem_stacked"])
+            else:
+                base["cond"] = rng.choice(["join3", "join3", "both", "elem_stacked", "elem_or", "elem_and"])
             base["scalar"] = False
             base["sel"] = rng.choice(["parent_elem", "elem_parent", "elem"])
             base["caching"] = True
@@ -61,12 +65,13 @@ def cases(spec, ctx):
                 n = len(base["world"]["parents"])
                 pr = list(range(n))
                 rng.shuffle(pr)
-                variants.append({"cond_order": rng.choice([[0, 1, 2], [2, 1, 0], [1, 2, 0], [2, 0, 1], [0, 2, 1]]), "perm": pr})
+                variants.append({"cond_order": rng.choice([[0, 1, 2], [2, 1, 0], [1, 2, 0], [2, 0, 1], [0, 2, 1]]), "perm": pr,
+                                 "swap": rng.random() < 0.6})
             yield {"flatten": base, "variants": variants}
             continue
         if rng.random() < 0.2:
             fc = c10.gen_case(rng)
-            while fc.get("corr"):       # correlated universal sub-queries have no condition AST to rewrite
+            while fc.get("corr") or fc.get("flatprim"):       # (no condition AST to rewrite in these)
                 fc = c10.gen_case(rng)
             fc["caching"] = True
             variants = []
@@ -154,6 +159,7 @@ def check_flatten_case(case, ctx):
         ctx.count("variants_compared")
         vc = dict(base)
         vc["cond_order"] = v["cond_order"]
+        vc["swap"] = v.get("swap", False)
         vc["world"] = {"parents": [base["world"]["parents"][j] for j in v["perm"]]}
         es2, ps2 = c16.build_world(vc["world"], vc.get("prim", False))
         try:
@@ -163,8 +169,10 @@ def check_flatten_case(case, ctx):
             return
         back = {f"Par{j}": f"Par{orig}" for j, orig in enumerate(v["perm"])}
         alt = {tuple(back.get(x, x) for x in r) for r in rows}
-        if v["cond_order"] != base.get("cond_order"):
+        if v["cond_order"] != base.get("cond_order") or v.get("swap"):
             ctx.cls("cls:variant_syntactically_different")
+        if base.get("prim"):
+            ctx.cls("cls:flatten_of_plain_numbers")
         if alt != rows0:
             ctx.fail("FLATTEN_SET:" + ("missing" if rows0 - alt else "") + ("+extra" if alt - rows0 else ""),
                      {"variant": vi, "condition_order": v["cond_order"], "parents_permutation": v["perm"],
